@@ -24,7 +24,9 @@ SpecA ==
     ("A" :> DAlias("nsb", Str13, "")) @@
     ("K" :> DUnion("nsb", "", TRUE, <<Tag("red", TVoid), Tag("green", TVoid)>>)) @@
     ("L" :> DStruct("nsb", "", <<Fld("l1", I32b)>>, <<>>, FALSE)) @@
-    ("E" :> DStruct("nsa", "", <<Fld("e1", TNull(Str))>>, <<>>, FALSE)) @@
+    \* E's second field defaults to a tag of a union of the same namespace whose name comes AFTER E's
+    ("E" :> DStruct("nsa", "", <<Fld("e1", TNull(Str)), FldD("e2", TRef("Z"), VUnion("Z", "zb", VNone))>>, <<>>, FALSE)) @@
+    ("Z" :> DUnion("nsa", "", TRUE, <<Tag("za", TVoid), Tag("zb", TVoid)>>)) @@
     ("S" :> DStruct("nsa", "", <<Fld("f1", I32b), Fld("f2", TNull(TRef("A"))),
                                  FldD("f3", I32b, VInt(12))>>, <<>>, FALSE)) @@
     ("C" :> DStruct("nsa", "S", <<Fld("g1", TRef("L")), Fld("g2", TNull(TList(TRef("S"), Unset, 1)))>>, <<>>, FALSE)) @@
